@@ -1,15 +1,17 @@
 import SfxProofs.Log
+import SfxProofs.LogAcc
 import SfxProps.C12
 import Mathlib.Analysis.SpecialFunctions.Log.Base
 /-
   C14 — log2 and ln are accurate to the destination's resolution.
 
-  FULL statement: `C14_statement` below (over the reals, Mathlib's `Real.logb` / `Real.log`).  PROVED: `C14_partial` — everything except
-  the two numeric error bounds: totality, the exact `Err` condition, the sign claims, exactness on powers of two, the result stays
-  representable.  NOT PROVED (stated, and judged on every run by the search oracle against 300-bit reference values, worst observed
-  error 3.5 ulp of the allowed 8): `|r − log2 x| ≤ 8 ulp` and `|r − ln x| ≤ 2^-23·|ln x| + 8 ulp`.  The missing argument is the
-  potential-function invariant of DESIGN.md §7/C14 (each truncation of the squaring step moves `result_k·2^-k + 2^-k·log2 x_k` by at most
-  `2^-(k+1)·2^-f / ln 2`; the rounding halvings contribute ≤ 1 ulp in total).
+  `C14_statement` is the property at full strength, over Mathlib's reals (`Real.logb 2`, `Real.log`), for every source layout `S`
+  and destination layout `D` with `D : From<S>` (the trait bound of `log2::<S, D>` / `ln::<S, D>`; `S = D` included) where `D` is a
+  supported signed type (≥ 9 integer bits, ≥ 23 fractional bits), and every operand.  `holds` proves it.
+
+  The numeric bounds come from `SfxProofs/LogAcc*.lean` (potential-function argument: halving loop ≤ 3 ulp, squaring loop ≤ 1.5 ulp,
+  final truncation < 1 ulp, reciprocal ≤ 1.5 ulp — 4.5 ulp in total for log2, 4.2 ulp + 2^-23 relative for ln, the latter from
+  `Real.log_two_gt_d9` / `Real.log_two_lt_d9`); the structural clauses from `SfxProofs/Log.lean`.
 -/
 namespace Sfx.C14
 open Sfx.LogPf Sfx.C12
@@ -17,27 +19,76 @@ open Sfx.LogPf Sfx.C12
 /-- the real value of a bit pattern -/
 noncomputable def val (f : Nat) (x : Int) : ℝ := (x : ℝ) / (2 : ℝ) ^ f
 
-/-- FULL statement of C14 (the two inequalities over the reals are the unproved part) -/
+/-- FULL statement of C14 -/
 def C14_statement : Prop :=
-  ∀ D : Layout, Supp D → ∀ x : Int, inRange D x →
-    (∀ r it dbg, Trans.run (Trans.log2 D D x) = .ok (some r, it) dbg →
-      0 < x ∧ |val D.f r - Real.logb 2 (val D.f x)| ≤ 8 / (2 : ℝ) ^ D.f ∧
-      (x ≤ 2 ^ D.f → r ≤ 0) ∧ (2 ^ D.f ≤ x → 0 ≤ r) ∧ (∀ k : Nat, x = 2 ^ k → r = ((k : Int) - D.f) * 2 ^ D.f)) ∧
-    (∀ r it dbg, Trans.run (Trans.ln D D x) = .ok (some r, it) dbg →
-      0 < x ∧ |val D.f r - Real.log (val D.f x)| ≤ |Real.log (val D.f x)| / (2 : ℝ) ^ 23 + 8 / (2 : ℝ) ^ D.f) ∧
-    (∀ it dbg, (Trans.run (Trans.log2 D D x) = .ok (none, it) dbg ∨ Trans.run (Trans.ln D D x) = .ok (none, it) dbg) →
-      x ≤ 0 ∨ (0 < x ∧ x < 2 ^ D.f ∧ ¬ inRange D (divSpec D.f (2 ^ D.f) x)))
+  ∀ S D : Layout, S.valid → Supp D → ConvPf.fromAdmissible S D → ∀ x : Int, inRange S x →
+    (∀ r it dbg, Trans.run (Trans.log2 S D x) = .ok (some r, it) dbg →
+      0 < x ∧ |val D.f r - Real.logb 2 (val S.f x)| ≤ 8 / (2 : ℝ) ^ D.f ∧
+      (x ≤ 2 ^ S.f → r ≤ 0) ∧ (2 ^ S.f ≤ x → 0 ≤ r) ∧ (∀ k : Nat, x = 2 ^ k → r = ((k : Int) - S.f) * 2 ^ D.f)) ∧
+    (∀ r it dbg, Trans.run (Trans.ln S D x) = .ok (some r, it) dbg →
+      0 < x ∧ |val D.f r - Real.log (val S.f x)| ≤ |Real.log (val S.f x)| / (2 : ℝ) ^ 23 + 8 / (2 : ℝ) ^ D.f) ∧
+    (∀ it dbg, (Trans.run (Trans.log2 S D x) = .ok (none, it) dbg ∨ Trans.run (Trans.ln S D x) = .ok (none, it) dbg) →
+      x ≤ 0 ∨ (0 < x ∧ x < 2 ^ S.f ∧ ¬ inRange D (divSpec D.f (2 ^ D.f) (x * 2 ^ (D.f - S.f))))) ∧
+    Trans.run (Trans.log2 S D x) ≠ .panic ∧ Trans.run (Trans.ln S D x) ≠ .panic
+
+/-- the widened operand has the same real value -/
+theorem val_widen (S D : Layout) (hf : S.f ≤ D.f) (x : Int) :
+    val D.f (x * 2 ^ (D.f - S.f)) = val S.f x := by
+  unfold val
+  have h : (2 : ℝ) ^ D.f = 2 ^ S.f * 2 ^ (D.f - S.f) := by
+    rw [← pow_add]; congr 1; omega
+  push_cast
+  rw [h]
+  have h1 : (0 : ℝ) < 2 ^ S.f := by positivity
+  have h2 : (0 : ℝ) < 2 ^ (D.f - S.f) := by positivity
+  field_simp
 
 end Sfx.C14
 
-/-! the proved part is stated with core powers (`Int.instNatPow`), as in the model -/
+/-! the model-level facts are stated with core powers (`Int.instNatPow`), as in the model -/
 attribute [-instance] Monoid.toNPow
 namespace Sfx.C14
 open Sfx.LogPf Sfx.C12
 
-/-- PROVED part of C14: for every supported type and every operand — no panic and no debug-only check; `Err` exactly for `x ≤ 0` or a
-positive operand below one whose reciprocal is not representable; result representable; `≤ 0` for `x ≤ 1`, `≥ 0` for `x ≥ 1`; exact on
-every power of two; the same for `ln` (without the exactness clause) -/
+/-- `log2::<S, D>(x)` is `log2::<D, D>` of the losslessly widened operand -/
+theorem log2_widen_eq (S D : Layout) (hS : S.valid) (hv : D.valid) (hadm : ConvPf.fromAdmissible S D) (x : Int)
+    (hx : inRange S x) :
+    Trans.log2 S D x = Trans.log2 D D (x * 2 ^ (D.f - S.f)) ∧ inRange D (x * 2 ^ (D.f - S.f)) := by
+  obtain ⟨hfrom, hx'⟩ := fromS_widen S D hS hv hadm x hx
+  obtain ⟨_, _, _, w4⟩ := widen_cmp S D hadm.1 x
+  refine ⟨?_, hx'⟩
+  rw [log2_eq, log2_eq, hfrom, fromS_refl]
+  by_cases h0 : x ≤ 0
+  · have : x * 2 ^ (D.f - S.f) ≤ 0 := by
+      by_contra hc
+      have := w4.1 (by omega)
+      omega
+    rw [if_pos h0, if_pos this]
+  · have : ¬ x * 2 ^ (D.f - S.f) ≤ 0 := by
+      have := w4.2 (by omega)
+      omega
+    rw [if_neg h0, if_neg this]
+
+theorem ln_widen_eq (S D : Layout) (hS : S.valid) (hv : D.valid) (hadm : ConvPf.fromAdmissible S D) (x : Int)
+    (hx : inRange S x) : Trans.ln S D x = Trans.ln D D (x * 2 ^ (D.f - S.f)) := by
+  rw [ln_eq, ln_eq, (log2_widen_eq S D hS hv hadm x hx).1]
+
+/-- model-level part (everything but the two real inequalities), any admissible source layout -/
+theorem structural (S D : Layout) (hS : S.valid) (h : Supp D) (hadm : ConvPf.fromAdmissible S D) (x : Int) (hx : inRange S x) :
+    (match Trans.run (Trans.log2 S D x) with
+      | .ok (some r, _) dbg => dbg = false ∧ 0 < x ∧ inRange D r ∧ (x ≤ 2 ^ S.f → r ≤ 0) ∧ (2 ^ S.f ≤ x → 0 ≤ r) ∧
+          (∀ k : Nat, x = 2 ^ k → r = ((k : Int) - S.f) * 2 ^ D.f)
+      | .ok (none, _) dbg => dbg = false ∧
+          (x ≤ 0 ∨ (0 < x ∧ x < 2 ^ S.f ∧ ¬ inRange D (divSpec D.f (2 ^ D.f) (x * 2 ^ (D.f - S.f)))))
+      | .panic => False) ∧
+    (match Trans.run (Trans.ln S D x) with
+      | .ok (some r, _) dbg => dbg = false ∧ 0 < x ∧ inRange D r ∧ (x ≤ 2 ^ S.f → r ≤ 0) ∧ (2 ^ S.f ≤ x → 0 ≤ r)
+      | .ok (none, _) dbg => dbg = false ∧
+          (x ≤ 0 ∨ (0 < x ∧ x < 2 ^ S.f ∧ ¬ inRange D (divSpec D.f (2 ^ D.f) (x * 2 ^ (D.f - S.f)))))
+      | .panic => False) :=
+  ⟨log2_total_widen S D hS h.1 h.2.1 h.2.2.2 hadm x hx, ln_total_widen S D hS h.1 h.2.1 h.2.2.1 h.2.2.2 hadm x hx⟩
+
+/-- the same-type form kept from the first version of this file (a corollary of `structural`) -/
 theorem C14_partial (D : Layout) (h : Supp D) (x : Int) (hx : inRange D x) :
     (match Trans.run (Trans.log2 D D x) with
       | .ok (some r, _) dbg => dbg = false ∧ 0 < x ∧ inRange D r ∧ (x ≤ 2 ^ D.f → r ≤ 0) ∧ (2 ^ D.f ≤ x → 0 ≤ r) ∧
@@ -50,7 +101,40 @@ theorem C14_partial (D : Layout) (h : Supp D) (x : Int) (hx : inRange D x) :
       | .panic => False) :=
   ⟨log2_total D h.1 h.2.1 h.2.2.1 h.2.2.2 x hx, ln_total D h.1 h.2.1 h.2.2.1 h.2.2.2 x hx⟩
 
-/-- non-vacuity: log2 of 8.0 in I32F32 is exactly 3.0 -/
+/-- C14 -/
+theorem holds : C14_statement := by
+  intro S D hS h hadm x hx
+  obtain ⟨hv, hs, hf, hint⟩ := h
+  obtain ⟨e2, hx'⟩ := log2_widen_eq S D hS hv hadm x hx
+  have eln := ln_widen_eq S D hS hv hadm x hx
+  have hval := val_widen S D hadm.1 x
+  obtain ⟨s2, sln⟩ := structural S D hS ⟨hv, hs, hf, hint⟩ hadm x hx
+  refine ⟨?_, ?_, ?_, ?_, ?_⟩
+  · intro r it dbg hr
+    rw [hr] at s2
+    obtain ⟨_, a, _, b, c, d⟩ := s2
+    refine ⟨a, ?_, b, c, d⟩
+    rw [e2] at hr
+    have := LogAccPf.log2_accuracy D hv hs hf hint _ hx' r it dbg hr
+    rw [← hval]
+    exact this
+  · intro r it dbg hr
+    rw [hr] at sln
+    refine ⟨sln.2.1, ?_⟩
+    rw [eln] at hr
+    have := LogAccPf.ln_accuracy D hv hs hf hint _ hx' r it dbg hr
+    rw [← hval]
+    exact this
+  · intro it dbg hr
+    rcases hr with hr | hr
+    · rw [hr] at s2; exact s2.2
+    · rw [hr] at sln; exact sln.2
+  · intro hp; rw [hp] at s2; exact s2
+  · intro hp; rw [hp] at sln; exact sln
+
+/-- non-vacuity: log2 of 8.0 in I32F32 is exactly 3.0; and a widening pair (I9F23 operand, I32F32 result) is admitted -/
 example : Trans.run (Trans.log2 ⟨true, 64, 32⟩ ⟨true, 64, 32⟩ (8 * 2 ^ 32)) = .ok (some (3 * 2 ^ 32), 3) false := by decide +kernel
+example : Supp ⟨true, 64, 32⟩ ∧ (⟨true, 32, 23⟩ : Layout).valid ∧ ConvPf.fromAdmissible ⟨true, 32, 23⟩ ⟨true, 64, 32⟩ := by
+  unfold Supp ConvPf.fromAdmissible; decide
 
 end Sfx.C14
